@@ -46,11 +46,16 @@ class EnumMember:
         if isinstance(other, str):
             if other in self.enum:
                 other = self.enum[other].value
-        try:
-            other = int(other)
-        except Exception:
-            # raise TypeError('%r can not be compared to %r!' %(other, self))
-            return -1  # XXX:!
+        if isinstance(other, float):
+            # a float is compared as it is: int(1.5) == 1, but 1.5 is not 1
+            if other != other:  # nan
+                return -1  # XXX:!
+        else:
+            try:
+                other = int(other)
+            except Exception:
+                # raise TypeError('%r can not be compared to %r!' %(other, self))
+                return -1  # XXX:!
         if self.value < other:
             return -1
         if self.value > other:
